@@ -66,7 +66,7 @@ PROPS["C10"] = {
     "design_ref": "DESIGN.md section 5, C10",
 }
 PROPS["C11"] = {
-    "units": {"polyvc": ["c11_jubjub"]},
+    "units": {"polyvc": ["c11_jubjub", "c11_bls"]},
     "scope": "the pure-Rust Jubjub group law (all representation mixes of add/sub, double, negation, conversions, equality predicates) and the Rust-level coordinate accessors / constructors / equality of BLS12-381 G1 and G2",
     "not_decided": ["all blst point routines (add/double/mult/compress/uncompress/on_curve/in_g1) and therefore the checked-decoder clause for G1/G2",
                     "Jubjub multiply (bit loop), from_bytes_inner (CtOption closures, sqrt), batch_normalize", "secp256k1 / Curve25519 (wrappers over external crates)",
@@ -79,10 +79,24 @@ PROPS["C11"] = {
     "technique": "contract-based VC generation over field-polynomial code (ideal membership by Groebner reduction)",
     "design_ref": "DESIGN.md section 1.3 and section 5, C11",
 }
+PROPS["C06"] = {
+    "units": {"polyvc": ["c06_edwards_gates"]},
+    "scope": "the three custom gates of the native (Jubjub) Edwards chip: doubling, conditional addition, curve membership",
+    "not_decided": ["that the assignment code puts the right values in the queried cells and copies them correctly (region API)",
+                    "scalar-multiplication loop structure, MSM, fixed-base tables", "every foreign-curve gate (secp256k1, BLS12-381 emulation)",
+                    "GLV, hash-to-curve, point (de)compression, subgroup checks"],
+    "trusted_base": [],
+    "assumptions": ["the denominators 1 +- d x1 x2 y1 y2 are units for points on the curve (d is a non-square): number-theoretic, assumed",
+                    "the conditional-add gate's bit b is boolean (constrained where the bit is assigned, not by this gate)"],
+    "claim": "Proof, for the native Edwards gates only, that each gate's constraint ideal contains the cleared-denominator twisted-Edwards law for the cells it queries (soundness of one activation) and that the honest values satisfy every constraint (completeness). Everything about how cells are assigned and wired, scalar multiplication structure, and every foreign-curve gadget is NOT decided.",
+    "level_note": "PolyVC on the gate closures extracted verbatim; goals decided by exact Groebner reduction (sympy). Trusted: PolyVC parser/executor, sympy.",
+    "technique": "contract-based VC generation over gate polynomials (ideal membership by Groebner reduction)",
+    "design_ref": "DESIGN.md section 5, C06",
+}
 
 # claimed in DESIGN.md, machinery not built yet in this revision
 PENDING = {}
-for _p in ("C05", "C06"):
+for _p in ("C05",):
     PENDING[_p] = "planned in DESIGN.md section 5 but the check is not built yet in this revision; not claimed until it is"
 
 NOT_APPLICABLE = {
